@@ -143,6 +143,18 @@ func isFuncDecl(words []aWord) bool {
 		if startWith(words, token.LBRACE) {                      // func (...) {
 			return false
 		}
+		// func (...) T {  or  func (...) (T1, T2) {: a function literal with results,
+		// unless what follows the parentheses is a method name or an operator
+		// followed by the parameter list
+		if len(words) > 0 {
+			paramsNext := len(words) > 1 && words[1].tok == token.LPAREN
+			switch words[0].tok {
+			case token.IDENT, token.MUL, token.ARROW:
+				return paramsNext
+			case token.LPAREN, token.LBRACK, token.MAP, token.CHAN, token.FUNC, token.STRUCT, token.INTERFACE:
+				return false
+			}
+		}
 	}
 	return true
 }
